@@ -7,6 +7,7 @@ EXTENDS Props
 GhostInit(g) ==
     [supply0 |-> g.post.supply, reward0 |-> g.post.pool.reward, claimable0 |-> ClaimableMilli(g.post),
      claimedNode |-> 0, dustq |-> 0, dustr |-> 0, cfg |-> g.cfg, start |-> TRUE,
+     grants |-> [i \in 1..Len(g.post.metas) |-> [data |-> g.post.metas[i].data, rw |-> g.post.metas[i].rw]],
      earn |-> [i \in 1..Len(g.post.workers) |->
                  LET w == g.post.workers[i]  m == MuAdd(MuOf(w.rew), MuOf(w.income * (g.post.h - w.last)))
                  IN [a |-> w.a, q |-> m.q, r |-> m.r, cq |-> 0]]]
@@ -27,7 +28,13 @@ GhostStep(g, x) ==
         earn2 == IF Kind(x) = "Claim" /\ Ok(x)
                  THEN LET e == EarnOf([earn |-> earn1], x.ev.creator) IN Put(earn1, "a", [e EXCEPT !.cq = @ - Delta(x, "m_market")])
                  ELSE earn1
-    IN [g EXCEPT !.earn = earn2, !.claimedNode = @ + (IF Kind(x) = "Claim" /\ Ok(x) THEN -Delta(x, "m_node") ELSE 0),
+        \* read-write grants as last signed by the owner and accepted; a newly created model starts with none
+        created == SelectSeq(x.post.metas, LAMBDA m : ~HasMeta(x.pre, m.data))
+        gr1 == FoldLeft(LAMBDA acc, m : Put(acc, "data", [data |-> m.data, rw |-> <<>>]), g.grants, created)
+        gr2 == IF Kind(x) = "Permission" /\ Ok(x) /\ x.ev.sigmode = "ok" /\ x.ev.signer = x.ev.owner /\ HasMeta(x.pre, x.ev.data)
+                  /\ MetaOf(x.pre, x.ev.data).owner = x.ev.signer
+               THEN Put(gr1, "data", [data |-> x.ev.data, rw |-> x.ev.rw]) ELSE gr1
+    IN [g EXCEPT !.grants = gr2, !.earn = earn2, !.claimedNode = @ + (IF Kind(x) = "Claim" /\ Ok(x) THEN -Delta(x, "m_node") ELSE 0),
                  !.dustq = d2.q, !.dustr = d2.r, !.start = FALSE]
 
 \* ---------------------------------------------------------------------------
@@ -38,7 +45,7 @@ Names == <<
   "C06_OrderEscrow", "C06_MarketEscrow", "C06_NodeEscrow", "C06_DidEscrow", "C06_EntitledNeverFails",
   "C07_UsedWithinCap", "C07_ProviderEscrowClosed", "C07_PledgeBackToPledger",
   "C08_MintedEqualsCounter", "C08_ClaimsWithinMinted", "C08_MintOnlyInBlocks", "C08_MintBound", "C08_ClaimExact",
-  "C09_ModelChangeAuthorised",
+  "C09_ModelChangeAuthorised", "C09_PermissionApplied",
   "C10_CompleteByAssignee", "C10_NodeSelfOnly", "C10_CancelByCreator", "C10_PayerConsent",
   "C11_KeptWhilePaid", "C11_ReleasedAtEnd", "C11_ModelOutlivesShards", "C11_NothingOverdue",
   "C12_Rescheduled", "C12_StoredOrderUntouched", "C12_ResolvedByBound", "C12_ReplicasAccounted", "C12_MigrationUntouched",
@@ -78,7 +85,8 @@ Verdict(name, x, g) ==
     [] name = "C08_MintOnlyInBlocks"     -> V(IsTx(x), C08_MintOnlyInBlocks(x))
     [] name = "C08_MintBound"            -> V(C08_MintBound_app(x), C08_MintBound(x, g.cfg))
     [] name = "C08_ClaimExact"           -> V(C08_ClaimExact_app(x), C08_ClaimExact(x))
-    [] name = "C09_ModelChangeAuthorised"-> V(C09_app(x), C09_ModelChangeAuthorised(x))
+    [] name = "C09_ModelChangeAuthorised"-> V(C09_app(x), C09_ModelChangeAuthorised(x, g))
+    [] name = "C09_PermissionApplied"    -> V(Kind(x) = "Permission" /\ Ok(x), C09_PermissionApplied(x))
     [] name = "C10_CompleteByAssignee"   -> V(C10_CompleteByAssignee_app(x), C10_CompleteByAssignee(x))
     [] name = "C10_NodeSelfOnly"         -> V(C10_NodeSelfOnly_app(x), C10_NodeSelfOnly(x))
     [] name = "C10_CancelByCreator"      -> V(C05_app(x), C10_CancelByCreator(x))
